@@ -219,23 +219,36 @@ def rule_ser_agree(ctx):
                     rd.append(('member' if nd['cn'] == 'read_member' else 'container', a0, c))
                 # header = writes before the key loop; key writes = writes whose argument is a dereferenced iterator
                 header = [(k, t, c) for (k, t, c) in wr if t[0] == 'field' and t[2] == THIS and not _after_key_loop(w, c)]
+                HB = ('field', 'header_bytes', THIS)
+                # a local byte counter may stand in for header_bytes: the first word of the file is then a placeholder of the
+                # same type that is overwritten with header_bytes at the end, and header_bytes is assigned from the counter
+                acc = None
+                for i_ in w.all_ids():
+                    nd_ = w.n(i_)
+                    if nd_['c'] == 'BinaryOperator' and nd_['op'] == '=' and strip_cast(w.term(nd_['ch'][0], inline=False)) == HB and reachable(w, i_):
+                        r_ = strip_cast(w.term(nd_['ch'][1], inline=False))
+                        if r_[0] == 'local':
+                            acc = r_
+                if acc is not None:
+                    firsts = [(k, t, c) for (k, t, c) in wr if strip_cast(t) == acc and not _after_key_loop(w, c)]
+                    if firsts and (not header or w.n(firsts[0][2])['l'] <= min(w.n(c)['l'] for (_, _, c) in header)):
+                        header = [('member', HB, firsts[0][2])] + header
                 wl = [(k, t[1]) for (k, t, c) in header]
                 rl = [(k, t[1]) for (k, t, c) in rd if t[0] == 'field']
                 ok = wl == rl and len(wl) >= 5
                 obs.append(Ob('SER-AGREE', w, header[0][2] if header else 0, 'the loader reads exactly the fields the serialiser wrote, in the same order and with the same helper kind',
                               f"writer {wl} / reader {rl}", OK if ok else VIOLATED, arm='order'))
-                # every header write is accumulated into header_bytes
-                HB = ('field', 'header_bytes', THIS)
+                # every header write is accumulated into header_bytes (or into the local counter it is assigned from)
                 acc_bad = []
                 for (k, t, c) in header:
                     p = w.sparent(c)
                     good = False
                     while p:
                         nd = w.n(p)
-                        if nd['c'] == 'CompoundAssignOperator' and nd['op'] == '+=' and w.term(nd['ch'][0], inline=False) == HB:
+                        if nd['c'] == 'CompoundAssignOperator' and nd['op'] == '+=' and strip_cast(w.term(nd['ch'][0], inline=False)) in (HB, acc):
                             good = True
                             break
-                        if nd['c'] in ('BinaryOperator',) and nd['op'] == '=' and w.term(nd['ch'][0], inline=False) == HB:
+                        if nd['c'] in ('BinaryOperator',) and nd['op'] == '=' and strip_cast(w.term(nd['ch'][0], inline=False)) in (HB, acc):
                             good = True
                             break
                         p = w.sparent(p)
@@ -470,10 +483,70 @@ def rules_c11(ctx):
                           OK if ok else (UNDECIDED if k is None else VIOLATED), arm='lower_bound'))
     for f in ctx.need(M + '::contains', ctx.units):
         KEY = ('param', f.params[0]['name'])
+        g = graph(f)
         for r in f.returns():
             t = f.term(f.n(r)['ch'][0], inline=True)
-            ok = t[0] == 'call' and t[1] == 'std::binary_search' and len(t[2]) == 3 and t[2][2] == KEY and _pgm_range_ok(('x', KEY, t[2][0], t[2][1]), KEY)
-            obs.append(Ob('KIND', f, r, 'contains(key) is std::binary_search for key inside the range search(key) returned', fmt_term(t)[:120], OK if ok else VIOLATED, arm='contains'))
+            if t[0] == 'call' and t[1] == 'std::binary_search':
+                ok = len(t[2]) == 3 and t[2][2] == KEY and _pgm_range_ok(('x', KEY, t[2][0], t[2][1]), KEY)
+                obs.append(Ob('KIND', f, r, 'contains(key) is std::binary_search for key inside the range search(key) returned', fmt_term(t)[:120], OK if ok else VIOLATED, arm='contains'))
+                continue
+            # the definition of binary_search written out: it = FIRST_GE(key) in the range; false if it is the end of the range,
+            # otherwise !(key < *it) (equivalently *it == key, since *it >= key)
+            ts = strip_cast(t)
+            st, why = UNDECIDED, 'unrecognised: ' + fmt_term(t)[:100]
+
+            def lb_of(x):
+                k = kinds.kind_of_term(strip_cast(x))
+                return k if k and k[0] == 'FIRST_GE' and k[1] == KEY and _pgm_range_ok(k, KEY) else None
+
+            def eq_atom(a):
+                a = strip_cast(a)
+                neg = False
+                while a[0] == 'un' and a[1] == '!':
+                    neg = not neg
+                    a = strip_cast(a[2])
+                if a[0] == 'op' and len(a) == 4:
+                    l, r_, o = strip_cast(a[2]), strip_cast(a[3]), a[1]
+                    if r_[0] == 'deref':
+                        l, r_, o = r_, l, {'<': '>', '>': '<', '<=': '>=', '>=': '<='}.get(o, o)
+                    if l[0] == 'deref' and r_ == KEY and lb_of(l[1]):
+                        eff = {'==': '==', '!=': '!=', '>': '>', '<=': '<='}.get(o)
+                        if neg:
+                            eff = {'==': '!=', '!=': '==', '>': '<=', '<=': '>'}.get(eff)
+                        # with *it >= key: (== key) <=> (<= key) <=> !(> key)
+                        if eff in ('==', '<='):
+                            return True
+                        if eff in ('!=', '>'):
+                            return False
+                return None
+            if ts == ('lit', 0):
+                # `return false` only where the position is the end of the searched range
+                deps = [(strip_cast(f.term(g.cond(b), inline=True)), lab) for (b, lab) in g.transitive_control_deps(f.block_of(r)[0]) if g.cond(b) and g.blocks[b].get('term_c') == 'IfStmt']
+                good = False
+                for (ct, lab) in deps:
+                    if ct[0] == 'op' and ct[1] in ('==', '!=') and len(ct) == 4 and (ct[1] == '==') == (lab is True):
+                        a_, b_ = strip_cast(ct[2]), strip_cast(ct[3])
+                        for x, y in ((a_, b_), (b_, a_)):
+                            kx = lb_of(x)
+                            if kx and strip_cast(kx[3]) == y:
+                                good = True
+                st, why = (OK, 'false where the lower-bound position is the end of the searched range') if good else (UNDECIDED, 'constant false under an unrecognised condition')
+            else:
+                parts = _conj(ts)
+                vals = [eq_atom(p_) for p_ in parts]
+                ends = []
+                for p_ in parts:
+                    p_ = strip_cast(p_)
+                    if p_[0] == 'op' and p_[1] == '!=' and len(p_) == 4:
+                        for x, y in ((strip_cast(p_[2]), strip_cast(p_[3])), (strip_cast(p_[3]), strip_cast(p_[2]))):
+                            kx = lb_of(x)
+                            if kx and strip_cast(kx[3]) == y:
+                                ends.append(p_)
+                if any(v is True for v in vals) and all((v is True) or (strip_cast(p_) in ends) for v, p_ in zip(vals, parts)):
+                    st, why = OK, 'the element at the lower-bound position compares equal to key'
+                elif any(v is False for v in vals):
+                    st, why = VIOLATED, f"`{fmt_term(t)[:80]}` is true when the element at the lower-bound position differs from key"
+            obs.append(Ob('KIND', f, r, 'contains(key) is std::binary_search for key inside the range search(key) returned (or its definition written out)', why, st, arm='contains'))
     ub_jobs = []
     for f0 in ctx.need(M + '::upper_bound', ctx.units):
         KEY0 = ('param', f0.params[0]['name'])
